@@ -273,26 +273,38 @@ def real_parses(ctx):
                 ctx.count(("real", d, name, flat[:2000]), nontrivial=len(ser[4]) > 1,
                           sample={"dialect": d, "file": name, "root_match": [ser[0], ser[1], len(ser[4])]} if len(ctx.samples) < 6 else None)
                 ctx.bump("real_root_matches")
-            # Spec.C02 on the final trees
+            # Spec.C02 on the final trees: pair each tree with the token tuple its root match was applied to
+            trees = [v for v in parsed.parsed_variants if v.tree is not None]
             for v in parsed.parsed_variants:
-                if v.tree is None:
-                    continue
-                spec_c02(ctx, lnt, v, d, name, txt)
+                for e in v.violations():
+                    if "completeness check fail" in e.desc():
+                        ctx.violation("the parser's own completeness check failed: tokens were dropped or duplicated",
+                                      {"dialect": d, "file": name, "text": txt if len(txt) < 600 else txt[:600] + "...", "error": e.desc()[:200]})
+            roots = [c for c in captured]
+            for i, v in enumerate(trees):
+                segs = roots[i][1] if i < len(roots) and len(roots) == len(trees) else None
+                spec_c02(ctx, lnt, v, d, name, txt, segs)
     finally:
         MatchResult.apply = orig_apply
     return lines, meta
 
 
-def spec_c02(ctx, lnt, variant, d, name, txt):
-    """Leaves of the tree (ignoring metas) = lexer tokens (ignoring metas), same text and positions."""
-    tokens, _ = lnt._lex_templated_file(variant.templated_file, lnt.config)
-    if tokens is None:
-        return
+def spec_c02(ctx, lnt, variant, d, name, txt, segs=None):
+    """Leaves of the tree (ignoring metas the parser inserted) = the lexer's tokens, same text and positions,
+    each exactly once (lexer-made metas such as end_of_file and template placeholders included)."""
     def key(s):
         pm = s.pos_marker
-        return (s.raw, pm.templated_slice.start, pm.templated_slice.stop, pm.source_slice.start, pm.source_slice.stop)
-    want = [key(t) for t in tokens if not t.is_meta]
-    got = [key(s) for s in variant.tree.raw_segments if not s.is_meta]
+        return (s.raw, s.is_meta, pm.templated_slice.start, pm.templated_slice.stop, pm.source_slice.start, pm.source_slice.stop)
+    if segs is not None:
+        ids = {id(t) for t in segs}
+        want = [key(t) for t in segs]
+        got = [key(s) for s in variant.tree.raw_segments if not (s.is_meta and id(s) not in ids)]
+    else:
+        tokens, _ = lnt._lex_templated_file(variant.templated_file, lnt.config)
+        if tokens is None:
+            return
+        want = [key(t) for t in tokens if not t.is_meta]
+        got = [key(s) for s in variant.tree.raw_segments if not s.is_meta]
     ctx.bump("spec_trees")
     if want != got:
         i = next((k for k, (a, b) in enumerate(zip(want, got)) if a != b), min(len(want), len(got)))
